@@ -187,7 +187,7 @@ pub fn spec(prop: &str) -> Option<WorldCheck> {
             level: "exploration",
             rule: "WORLD scenarios: 1-3 payments, HTLCs whose metadata carries the invoice of another hash, late HTLCs after success, crashes/restarts, write faults. Oracle at every resolve answer: sha256(key)==htlc hash and a complete part or Succeeded record of that hash exists; at every pay arrival: no held HTLC carrying that invoice has a different hash. Non-trivial: a resolve was produced and the scenario has >=2 hashes or a restart; distinct by abstract trace hash.",
             profile: Profile { max_payments: 3, w_hash_mismatch: 25, w_reject: 4, w_under: 8, ..d.clone() },
-            thorough_profile: Some(Profile { max_payments: 3, w_hash_mismatch: 15, read_faults: true, ..d.clone() }),
+            thorough_profile: Some(Profile { max_payments: 3, w_hash_mismatch: 15, max_parts: 4, ..d.clone() }),
             cases_quick: 150,
             cases_thorough: 4000,
             nontrivial: |s| s.resolves > 0 && (s.hashes_with_trampoline >= 2 || s.crashes > 0),
@@ -251,7 +251,7 @@ pub fn spec(prop: &str) -> Option<WorldCheck> {
             level: "fault_enumeration",
             rule: "WORLD: overlap of two lifecycles of one hash, crashes around the intent writes and the pay, stored histories Free / Pending(+-parts) / Succeeded, write faults. Oracle at every pay arrival: no part of that hash pending/complete and no other pay running; end of run: at most one completed payment group per hash. Non-trivial: the hash had an earlier attempt record or part when a new set began; distinct by abstract trace hash.",
             profile: Profile { w_crash: 8, w_under: 5, w_reject: 3, max_parts: 2, ..d.clone() },
-            thorough_profile: Some(Profile { w_crash: 8, read_faults: true, ..d.clone() }),
+            thorough_profile: Some(Profile { w_crash: 8, max_parts: 4, ..d.clone() }),
             cases_quick: 200,
             cases_thorough: 6000,
             nontrivial: |s| s.earlier_attempt_when_ready > 0,
